@@ -14,7 +14,7 @@ func init() {
 	Registry["C07"] = c07
 	Metas["C07"] = Meta{Level: "other", NeedCG: true,
 		Technique: "static analysis: dominance of log-before-handle on every input arm, must-pass-through of the flush on all paths of the WAL writer, replay-hygiene ordering rules, identity of the replayed record with the logged one",
-		Explain:   "Crash points and byte-level truncation of the log cannot be enumerated statically. Decided: (R1) in receiveRoutine each of the three inputs is written to the WAL before it is handled, and the handled value is the logged one; (R2) WAL.Save/writeHeight flush after every record and a write/flush error is fatal (never silently dropped); the light-mode early return precedes any write; (R3) the height marker is written before the NewHeight record; every step is logged unconditionally by newStep (the only writer of the next height's marker); (R4) replay hygiene: replayMode brackets catchupReplay, the decode error is tested before the record is used, the logged record (with its peer key) is re-handled unchanged, failures return errors instead of panicking, and replay completes before the receive routine starts; (R5) a refused signature during replay is tolerated (shared with C03-R4). (R6) a restart rebuilds LastCommit from the stored seen commit over state.LastValidators and installs it only with +2/3. (R7) the WAL reader returns records of any length (growing read). NOT decided: torn last line, rotation, truncation at arbitrary byte offsets, equality of the restored state with the pre-crash state.",
+		Explain:   "Crash points and byte-level truncation of the log cannot be enumerated statically. Decided: (R1) in receiveRoutine each of the three inputs is written to the WAL before it is handled, and the handled value is the logged one; (R2) WAL.Save/writeHeight flush after every record and a write/flush error is fatal (never silently dropped); the light-mode early return precedes any write; (R3) the height marker is written before the NewHeight record; every step is logged unconditionally by newStep (the only writer of the next height's marker); (R4) replay hygiene: replayMode brackets catchupReplay, the decode error is tested before the record is used, the logged record (with its peer key) is re-handled unchanged, failures return errors instead of panicking, and replay completes before the receive routine starts; (R5) a refused signature during replay is tolerated (shared with C03-R4). (R6) a restart rebuilds LastCommit from the stored seen commit over state.LastValidators and installs it only with +2/3. (R7) the WAL reader returns records of any length (growing read). (R11) Group.Search keeps looking in the older files when the newer ones hold no marker (a height that spans a rotation is still found). NOT decided: torn last line, truncation at arbitrary byte offsets, equality of the restored state with the pre-crash state.",
 		Assume:    []string{"go-autofile Group.Flush reports a sticky write error", "the signer refuses conflicting signatures (C03)"},
 	}
 }
@@ -32,6 +32,7 @@ func c07(c *Ctx) {
 	c07R8(c)
 	replayAllLinesRule(c, "R9")
 	replayVotesRule(c, "R10")
+	c07R11(c)
 	shared(c, "C06", c06R1)
 }
 
@@ -335,5 +336,95 @@ func replayAllLinesRule(c *Ctx, id string) {
 	}
 	if n == 0 {
 		c.R.Undecided(rule, "readReplayMessage", c.P.Pos(f.F.Pos()), fname(f), "no replay call")
+	}
+}
+
+// c07R11: a height whose records span a file rotation is still found.  Group.Search bisects over the
+// file indexes by reading forward from the middle file to the next marker line; when the files from
+// the middle to the head hold no marker at all scanNext reports io.EOF, which says "look in the older
+// files", not "the log has no such height".  catchupReplay treats an EOF from Search as "nothing to
+// replay", so surfacing it makes a validator that crashed after a rotation restart the height
+// without its votes and its lock.
+func c07R11(c *Ctx) {
+	rule := c.R.Rule("R11", "search across rotation: in Group.Search no return hands out the error of the bisection probe scanNext(...) unless the path establishes that it is not io.EOF (an EOF from the probe only narrows the search to the older files)", 1)
+	f := c.Anchor(rule, "gemmill/modules/go-autofile.(*Group).Search")
+	if f == nil {
+		return
+	}
+	probes := f.CallsTo(cfgx.Named("gemmill/modules/go-autofile.scanNext"))
+	if len(probes) == 0 {
+		// no forward probe: the bisection was replaced; nothing to require here
+		c.R.Ob(rule, "probe", true, c.P.Pos(f.F.Pos()), fname(f), "Search does not probe with scanNext")
+		return
+	}
+	isEOF := func(v ssa.Value) bool {
+		if u, ok := v.(*ssa.UnOp); ok {
+			if g, ok := u.X.(*ssa.Global); ok {
+				return g.Pkg != nil && g.Pkg.Pkg.Path() == "io" && g.Name() == "EOF"
+			}
+		}
+		return false
+	}
+	for _, pc := range probes {
+		call, _ := pc.(*ssa.Call)
+		if call == nil {
+			c.R.Undecided(rule, "probe-form", c.Pos(pc), fname(f), "scanNext is not called directly")
+			continue
+		}
+		var errV ssa.Value
+		for _, ref := range *call.Referrers() {
+			if e, ok := ref.(*ssa.Extract); ok && e.Index == 2 {
+				errV = e
+			}
+		}
+		if errV == nil {
+			c.R.Undecided(rule, "probe-error", c.Pos(pc), fname(f), "the error of scanNext is not bound")
+			continue
+		}
+		var carries func(v ssa.Value, d int) bool
+		carries = func(v ssa.Value, d int) bool {
+			if v == errV {
+				return true
+			}
+			if ph, ok := v.(*ssa.Phi); ok && d < 4 {
+				for _, e := range ph.Edges {
+					if carries(e, d+1) {
+						return true
+					}
+				}
+			}
+			return false
+		}
+		excludesEOF := func(r ssa.Instruction) bool {
+			for _, g := range f.Guards(r) {
+				switch cv := g.Cond.(type) {
+				case *ssa.BinOp:
+					if (cv.X == errV && isEOF(cv.Y)) || (cv.Y == errV && isEOF(cv.X)) {
+						if (cv.Op.String() == "==" && !g.Pol) || (cv.Op.String() == "!=" && g.Pol) {
+							return true
+						}
+					}
+				case *ssa.Call:
+					if cfgx.CalleeName(cv) == "errors.Is" && len(cv.Call.Args) == 2 && cv.Call.Args[0] == errV && isEOF(cv.Call.Args[1]) && !g.Pol {
+						return true
+					}
+				}
+			}
+			return false
+		}
+		n := 0
+		ok := true
+		var at ssa.Instruction = pc.(ssa.Instruction)
+		for _, r := range f.Returns() {
+			if len(r.Results) != 3 || !carries(r.Results[2], 0) {
+				continue
+			}
+			n++
+			if !excludesEOF(r) {
+				ok = false
+				at = r
+			}
+		}
+		c.R.Ob(rule, "scanNext-error⊣not-EOF", ok, c.Pos(at), fname(f), fmt.Sprintf("the probe's io.EOF (no marker from the middle file to the head: the marker is in an older file) is returned to the caller; catchupReplay then skips the replay and the height restarts without its votes and lock (%d return(s) carry the probe's error)", n))
 	}
 }
